@@ -14,13 +14,14 @@ use crate::interpreter::trace::{tap_results, AdapterTap, Trace};
 use crate::ir::FieldValue;
 use crate::numbers_interpreter::{NumbersAdapter, NumbersVertex};
 use crate::verif_corpus::{compile, corpus};
+use crate::verif_batching::{Batching, SCHEDULES};
 use crate::verif_vk as vk;
-use std::cell::RefCell;
+use std::cell::{Cell, RefCell};
 use std::collections::{BTreeMap, BTreeSet};
 use std::rc::Rc;
 use std::sync::Arc;
 
-// @grid c15_grid_trace_roundtrip tier=quick bound="every numbers query of the corpus whose arguments are accepted (repository valid queries + extra shapes), at most 400 rows each; traces serialized to RON (the format the repository stores traces in; JSON cannot represent the tuple-keyed maps inside contexts and is not a supported trace format)"
+// @grid c15_grid_trace_roundtrip tier=quick bound="every numbers query of the corpus whose arguments are accepted (repository valid queries + extra shapes), at most 400 rows each, each traced from the plain NumbersAdapter and from two read-ahead wrappers of it (chunks of 4; mixed 1..4; first chunk pulled on the first poll); traces serialized to RON (the format the repository stores traces in; JSON cannot represent the tuple-keyed maps inside contexts and is not a supported trace format)"
 // @ob executing through the tracing adapter yields the rows of direct execution; the recorded trace, after a serialize/deserialize round trip, replays to exactly those rows without any data source
 pub(crate) fn c15_grid_trace_roundtrip() {
     let mut n = 0u64;
@@ -49,7 +50,72 @@ pub(crate) fn c15_grid_trace_roundtrip() {
             failures.insert(format!("{}: {}", case.name, m.lines().next().unwrap_or("")));
         }
         n += 1;
+        // the same inverse pair when the traced data source reads ahead (several inputs pulled before an output)
+        for schedule in [SCHEDULES[1], SCHEDULES[2]] {
+            let outcome = std::panic::catch_unwind(std::panic::AssertUnwindSafe(|| {
+                let source = || Batching { inner: NumbersAdapter::new(), sizes: Rc::new(Cell::new(schedule)), call_time: false };
+                let direct: Vec<BTreeMap<Arc<str>, FieldValue>> = interpret_ir(Arc::new(source()), iq.clone(), args.clone()).expect("accepted").take(400).collect();
+                let tracer = Rc::new(RefCell::new(Trace::new(iq.ir_query.clone(), string_args.clone())));
+                let mut tap = Arc::new(AdapterTap::new(source(), tracer));
+                let traced: Vec<_> = tap_results(tap.clone(), interpret_ir(tap.clone(), iq.clone(), args.clone()).expect("accepted")).take(400).collect();
+                assert!(traced == direct, "executing through the tracing adapter changed the rows (read-ahead source)");
+                let complete = traced.len() < 400;
+                let trace: Trace<NumbersVertex> = Arc::make_mut(&mut tap).clone().finish();
+                let via_ron: Trace<NumbersVertex> = ron::from_str(&ron::to_string(&trace).expect("trace serializes")).expect("trace deserializes");
+                assert!(via_ron == trace, "RON round trip changed the trace (read-ahead source)");
+                assert_interpreted_results(&via_ron, &direct, complete);
+            }));
+            if let Err(p) = outcome {
+                let m = p.downcast_ref::<String>().cloned().or_else(|| p.downcast_ref::<&str>().map(|s| s.to_string())).unwrap_or_default();
+                failures.insert(format!("{} (read-ahead source {schedule:#x}): {}", case.name, m.lines().next().unwrap_or("")));
+            }
+            n += 1;
+        }
     }
     vk::grid_done("c15_grid_trace_roundtrip", n);
     if !failures.is_empty() { panic!("trace record/replay round trip failures: {{{}}}", failures.into_iter().take(8).collect::<Vec<_>>().join("; ")); }
+}
+
+
+// @grid c15_grid_trace_roundtrip_call_time_prefetch tier=quick bound="every numbers query of the corpus, traced from a read-ahead wrapper of NumbersAdapter whose resolvers pull their first chunk (4 contexts) inside the resolve_* call, before returning the iterator; at most 400 rows"
+// @ob the trace of a data source that pulls input contexts during the resolver call itself replays to the rows of direct execution
+pub(crate) fn c15_grid_trace_roundtrip_call_time_prefetch() {
+    let mut n = 0u64;
+    let mut failed: Vec<String> = Vec::new();
+    let mut other = BTreeSet::new();
+    for case in corpus() {
+        if case.schema_name != "numbers" { continue; }
+        let Some(iq) = compile(&case) else { continue; };
+        vk::grid_case(format_args!("{}", case.name));
+        let args = Arc::new(case.arguments.clone());
+        if interpret_ir(Arc::new(NumbersAdapter::new()), iq.clone(), args.clone()).is_err() { continue; }
+        let string_args: BTreeMap<String, FieldValue> = case.arguments.iter().map(|(k, v)| (k.to_string(), v.clone())).collect();
+        let source = || Batching { inner: NumbersAdapter::new(), sizes: Rc::new(Cell::new(SCHEDULES[1])), call_time: true };
+        // recording must be transparent and serializable in any case
+        let recorded = std::panic::catch_unwind(std::panic::AssertUnwindSafe(|| {
+            let direct: Vec<BTreeMap<Arc<str>, FieldValue>> = interpret_ir(Arc::new(source()), iq.clone(), args.clone()).expect("accepted").take(400).collect();
+            let tracer = Rc::new(RefCell::new(Trace::new(iq.ir_query.clone(), string_args.clone())));
+            let mut tap = Arc::new(AdapterTap::new(source(), tracer));
+            let traced: Vec<_> = tap_results(tap.clone(), interpret_ir(tap.clone(), iq.clone(), args.clone()).expect("accepted")).take(400).collect();
+            assert!(traced == direct, "executing through the tracing adapter changed the rows");
+            let trace: Trace<NumbersVertex> = Arc::make_mut(&mut tap).clone().finish();
+            let via_ron: Trace<NumbersVertex> = ron::from_str(&ron::to_string(&trace).expect("trace serializes")).expect("trace deserializes");
+            assert!(via_ron == trace, "RON round trip changed the trace");
+            (via_ron, direct)
+        }));
+        match recorded {
+            Err(_) => { other.insert(format!("recording failed: {}", case.name)); }
+            Ok((trace, direct)) => {
+                let complete = direct.len() < 400;
+                if std::panic::catch_unwind(std::panic::AssertUnwindSafe(|| assert_interpreted_results(&trace, &direct, complete))).is_err() { failed.push(case.name.clone()); }
+            }
+        }
+        n += 1;
+    }
+    vk::grid_done("c15_grid_trace_roundtrip_call_time_prefetch", n);
+    if !other.is_empty() { panic!("tracing a call-time prefetching source failed: {{{}}}", other.into_iter().take(8).collect::<Vec<_>>().join("; ")); }
+    if !failed.is_empty() {
+        let digest = failed.join(",").bytes().fold(0xcbf29ce484222325u64, |h, b| (h ^ b as u64).wrapping_mul(0x100000001b3));
+        panic!("traces of a source that pulls inputs inside the resolver call do not replay: {{{} of {} queries, first {}, last {}, digest {:016x}}}", failed.len(), n, failed[0], failed[failed.len() - 1], digest);
+    }
 }
